@@ -17,7 +17,9 @@ from aiomysensors.exceptions import (
 )
 from aiomysensors.model.const import (
     DEFAULT_PROTOCOL_VERSION,
+    MAX_BATTERY_LEVEL,
     MAX_NODE_ID,
+    MIN_BATTERY_LEVEL,
     SYSTEM_CHILD_ID,
 )
 from aiomysensors.model.message import Message
@@ -334,6 +336,12 @@ class IncomingMessageHandler(IncomingMessageHandlerBase):
             battery_level = round(float(message.payload))
         except (ValueError, OverflowError) as err:
             raise InvalidMessageError(err, message) from err
+
+        if not MIN_BATTERY_LEVEL <= battery_level <= MAX_BATTERY_LEVEL:
+            raise InvalidMessageError(
+                ValueError(f"Battery level out of range: {battery_level}"),
+                message,
+            )
 
         gateway.nodes[message.node_id].battery_level = battery_level
         return message
